@@ -97,6 +97,11 @@ def make_norm(cfg):
 
         rec = dict(S=None, G=None, D=None)
         shp, gr = sl[SHAMPOO_PRECONDITIONER_LIST], sl[GRAFTING_PRECONDITIONER_LIST]
+        if not (hasattr(shp, "precondition") and hasattr(gr, "precondition") and hasattr(run.opt, "_precondition_and_grafting")):
+            # the three directions are observed through these methods; if a refactoring renamed them the clause is not observable from outside
+            # (C01's reference comparison still decides the applied update)
+            symx.CTX.events.append("norm transfer: precondition()/_precondition_and_grafting not found, section skipped")
+            return "skipped"
         o_s, o_g, o_pg = shp.precondition, gr.precondition, run.opt._precondition_and_grafting
 
         def w_s(*a, **k):
@@ -124,6 +129,10 @@ def make_norm(cfg):
             if e is not None:
                 symx.prove(f"step() does not raise ({type(e).__name__})", False, info)
             run.ref_step(grads, check_calls=False)
+            # the recorded directions come from the implementation itself: anchor them in the reference model (parameters and all state), so that a
+            # grafted direction computed from a corrupted input cannot satisfy the norm identity among the implementation's own quantities only
+            run.compare_state()
+            run.compare_params()
             if k >= run.rcfg["sps"]:
                 symx.prove("both directions are computed at a preconditioned step", rec["S"] is not None and rec["G"] is not None, info)
                 for b, (S, G, D) in enumerate(zip(rec["S"], rec["G"], rec["D"])):
@@ -185,6 +194,11 @@ def jobs_for(tier):
             cfg.update(graft=graft, nesterov=False, bias_corr=(graft == "adam"), decoupled=True, pf=1, sps=2, T=3, rebase=True, tier=tier)
             njobs.append(dict(id=f"n{m}", module="checks.c02", factory="make_norm", cfg=cfg))
             m += 1
+        # a block without any preconditioned dimension (the 1-d parameter with its only dimension ignored): precondition() hands its input back
+        cfg = dict(params=[(2, 3), (3,)], mpd=4, merge=False, ignored_dims=[0])
+        cfg.update(graft=graft, nesterov=False, bias_corr=(graft == "adam"), decoupled=True, pf=1, sps=1, T=2, rebase=True, tier=tier, fixed=dict(mom=0))
+        njobs.append(dict(id=f"n{m}", module="checks.c02", factory="make_norm", cfg=cfg))
+        m += 1
     return jobs, njobs
 
 
@@ -227,5 +241,5 @@ def run(tier, seed, argv):
 
 
 def replay(record):
-    kind = ((record.get("info") or {}).get("signature") or {}).get("kind")
-    return H.replay_record(record, make_norm if kind == "norm-transfer" else make)
+    cfg = (record.get("info") or {}).get("cfg") or {}
+    return H.replay_record(record, make if "target" in cfg else make_norm)
